@@ -53,7 +53,7 @@ type c19Params struct {
 func (c19) ID() string    { return "C19" }
 func (c19) Level() string { return "fault_enumeration" }
 func (c19) Rule() string {
-	return "real DTLCP client and server under virtual time on a network that applies a plan of at most k faults to the datagrams of the handshake and is reliable afterwards. Fault kinds per datagram: drop, duplicate, short delay (overtaken by the next datagram), long delay (past the retransmission timeout). k=0 (control: no timer may expire), all k=1 plans, all k=2 plans over the datagrams of the fault-free handshake, seeded k=3 plans (thorough), for full and resumed handshakes, suites, with client authentication; the schedule (including the order of simultaneous timer expiries) comes from the seed. Additionally, with configured timers whose maximum is not initial*2^n (1 s..1.5 s, 0.4 s..1 s, 0.6 s..0.6 s), the same flight lost two and three times in a row; single losses and duplications also with the wall clock AFTER the configured time (normally it is before it), single losses with the configured clock just below a full minute, and single losses in a full handshake that follows a declined resumption. Oracle: both endpoints complete within the sum of the first k values of the retransmission schedule (initial timeout doubling up to the configured maximum) plus slack of virtual time, agree on all negotiated parameters, and an echo in both directions works. Also: every single loss with the server application reading through ReadFrom; the client's hellos fragmented (client path MTU 100: 2-3 datagrams per hello), each of those datagrams lost in turn. distinct = distinct (mode, plan); non-trivial = every planned fault hit a datagram"
+	return "real DTLCP client and server under virtual time on a network that applies a plan of at most k faults to the datagrams of the handshake and is reliable afterwards. Fault kinds per datagram: drop, duplicate, short delay (overtaken by the next datagram), long delay (past the retransmission timeout). k=0 (control: no timer may expire), all k=1 plans, all k=2 plans over the datagrams of the fault-free handshake, seeded k=3 plans (thorough), for full and resumed handshakes, suites, with client authentication; the schedule (including the order of simultaneous timer expiries) comes from the seed. Additionally, with configured timers whose maximum is not initial*2^n (1 s..1.5 s, 0.4 s..1 s, 0.6 s..0.6 s), the same flight lost two and three times in a row; single losses and duplications also with the wall clock AFTER the configured time (normally it is before it), single losses with the configured clock just below a full minute, and single losses in a full handshake that follows a declined resumption. Oracle: both endpoints complete within the sum of the first k values of the retransmission schedule (initial timeout doubling up to the configured maximum) plus slack of virtual time, agree on all negotiated parameters, and an echo in both directions works. Also: every single loss with the server application reading through ReadFrom; the client's hellos fragmented (client path MTU 100: 2-3 datagrams per hello; and 50 / 80, where the client's Finished is fragmented as well), each of those datagrams lost in turn. distinct = distinct (mode, plan); non-trivial = every planned fault hit a datagram"
 }
 func (c19) Components() (real, stub []string) {
 	return []string{"dtlcp client+server (instrumented): flights, retransmission, back-off, dwell, replay window"},
@@ -128,6 +128,17 @@ func c19List(tier string) []c19Params {
 					// the client's hellos are fragmented (path MTU 100): each of their datagrams lost in turn
 					for _, name := range []string{"CH0#1", "CHx#1", "CH1#1", "CHx#2", "CHx#3"} {
 						out = append(out, c19Params{Suite: m.suite, Auth: m.auth, PMTUC: 100, Plan: []simnet.DFault{c19Fault(0, name, simnet.FDrop)}})
+					}
+				}
+				if !resumed {
+					// near the smallest workable path MTU even the client's Finished is fragmented (its first fragments are
+					// too short for the namer to tell the two hellos apart: both are CH1, their other fragments CHx)
+					pm := 50
+					if IsCBC(m.suite) {
+						pm = 80
+					}
+					for _, name := range []string{"CH1#1", "CHx#1", "CHx#2", "CHx#3", "CH1#2", "CHx#5"} {
+						out = append(out, c19Params{Suite: m.suite, Auth: m.auth, PMTUC: pm, Plan: []simnet.DFault{c19Fault(0, name, simnet.FDrop)}})
 					}
 				}
 				for _, s := range slots {
